@@ -80,7 +80,10 @@ def profile(draw, n_min=2, n_max=5, max_ballots=60):
     return {"cands": cands, "ballots": ballots, "winner": winner, "order_hint": order,
             "asn": draw(st.sampled_from(["bp_estimate", "bp_estimate", "cp_estimate", "cp_estimate"] + sorted(CUSTOM_DIFFICULTY))), "tot_extra": extra,
             "contest_name": draw(st.sampled_from(["c", "c", "339", 1])), "writeins": writeins,
-            "via_file": via_file, "repeats": repeats}
+            "via_file": via_file, "repeats": repeats,
+            # allowed gap between the bounds at which the search may stop (C04 only: sufficiency does not depend on it; C15 is
+            # stated for gap 0)
+            "agap": draw(st.sampled_from([0, 0, 0, 0.5, 2.0, 10.0, 25.0]))}
 
 
 # difficulty functions: the two shipped ones, and others that decrease as the margin grows (the search is generic in it:
